@@ -105,6 +105,19 @@ func ParseRace(report string) (a, b string, ok bool) {
 	if len(blocks) < 2 {
 		return "", "", false
 	}
+	// the innermost frame that is not the Go runtime's: if it belongs to the simulation runtime
+	// itself, the report is about the harness, not about the library
+	for _, frames := range blocks[:2] {
+		for _, f := range frames {
+			if strings.HasPrefix(f, "runtime.") || strings.HasPrefix(f, "internal/") || strings.HasPrefix(f, "sync.") || strings.HasPrefix(f, "sync/atomic.") {
+				continue
+			}
+			if strings.Contains(f, "/zzsimrt.") {
+				return "", "", false
+			}
+			break
+		}
+	}
 	top := func(frames []string) string {
 		for _, f := range frames {
 			if i := strings.Index(f, "github.com/getkin/kin-openapi/"); i >= 0 && !strings.Contains(f, "/zzsimrt") {
